@@ -21,6 +21,15 @@ class BigPart(Part):
     grade: int = 0
 
 
+class Marked:
+    """a mixin that is no Symbol and no dataclass: only some parts inherit from it"""
+
+
+@dataclass(eq=False)
+class MarkedPart(Part, Marked):
+    pass
+
+
 @dataclass(eq=False)
 class Box(Symbol):
     label: str = ""
